@@ -163,7 +163,13 @@ bool parseOpts(char c, vpak_t *res)
     case 1:
         if (res->ctype == -1)
         {
-            res->ctype = atoi(optarg);
+            tnum = atoi(optarg);
+            if (!check_ctype(tnum))
+            {
+                strlog("Error :", "Wrong ctype");
+                return false;
+            }
+            res->ctype = tnum;
             printCryptMode(res->ctype);
         }
         else
@@ -175,7 +181,13 @@ bool parseOpts(char c, vpak_t *res)
     case 2:
         if (res->htype == -1)
         {
-            res->htype = atoi(optarg);
+            tnum = atoi(optarg);
+            if (!check_htype(tnum))
+            {
+                strlog("Error :", "Wrong htype");
+                return false;
+            }
+            res->htype = tnum;
             printHashMode(res->htype);
         }
         else
